@@ -63,6 +63,11 @@ def gen_extent(rng, tier, idx):
             rng.weighted([(None, 3), (0, 2)])
         e["salt"] = rng.randrange(1 << 30)
         e["fsize"] = (n + (e["start"] or 0)) * SECTOR + rng.pick([0, 0, 512])
+        if rng.chance(0.2):
+            # guest data is opaque: a flat extent's first sectors may look like any container (its kind is what the
+            # descriptor line says, never what the data looks like)
+            e["head"] = rng.pick([b"KDMV\x01\0\0\0\x03\0\0\0", b"COWD\x01\0\0\0\x03\0\0\0", bytes.fromhex("bebafeca00000000"),
+                                  b"# Disk DescriptorFile\nversion=1\n", b"conectix", b"vhdxfile", b"QFI\xfb\0\0\0\x03"]).hex()
     else:
         kind = {"SPARSE": "hosted", "VMFSSPARSE": "cowd", "SESPARSE": "sesparse"}[t]
         for _ in range(50):
@@ -99,9 +104,24 @@ def gen_multi(rng, tier):
         if mode == "handles" and e["type"] in ("FLAT", "VMFS"):
             e["start"] = None
             e.pop("tail", None)
+            e.pop("head", None)          # bare handles carry no descriptor: there the data's magic is all there is
             e["fsize"] = e["sectors"] * SECTOR
         exts.append(e)
     c = {"mode": mode, "extents": exts, "salt": rng.randrange(1 << 30)}
+    flats = [i for i, e in enumerate(exts) if e["type"] == "FLAT"]
+    shared = None
+    if mode == "descriptor" and len(flats) >= 2 and rng.chance(0.35):
+        # two extents carved out of one flat file at different start sectors
+        i, j = rng.sample(flats, 2)
+        a, b = exts[i], exts[j]
+        a["start"] = a["start"] or 0
+        b["start"] = rng.weighted([(a["start"] + a["sectors"], 3), (a["start"] + a["sectors"] + rng.randint(1, 9), 2),
+                                   (max(0, a["start"] - rng.randint(0, 5)), 1)])
+        b["name"], b["salt"] = a["name"], a["salt"]
+        a["fsize"] = b["fsize"] = max(a["start"] + a["sectors"], b["start"] + b["sectors"]) * SECTOR
+        if "head" in a or "head" in b:
+            a["head"] = b["head"] = a.get("head") or b.get("head")
+        shared = (i, j)
     if mode == "descriptor":
         eol = rng.pick(["\n", "\n", "\r\n"])
         lines = ["# Disk DescriptorFile", "version=1", "CID=" + "%08x" % rng.randrange(1 << 32), "parentCID=ffffffff",
@@ -142,6 +162,14 @@ def gen_multi(rng, tier):
             off = s * SECTOR + rng.randrange(0, SECTOR)
             nb = rng.weighted([(rng.randint(0, 700), 2), (cnt * SECTOR + rng.randint(0, 600), 4), (-1 if total - s < 700 else 4096, 1)])
             reqs.append([k, off, nb])
+    if shared:
+        # alternate between the two extents, each continuing where its own previous request ended
+        lo = [0] + bounds
+        for step in range(3):
+            for i in shared:
+                k = min(rng.randint(1, 3), exts[i]["sectors"])
+                s = lo[i] + min(step * k, exts[i]["sectors"] - k)
+                reqs.append(["sectors", s, k])
     c["reqs"] = reqs
     return c
 
@@ -150,7 +178,7 @@ def extent_file(e):
     """-> (SparseFile, infl map)"""
     if "sparse" in e:
         return c02.build_image(e["sparse"])
-    return core.SparseFile(e["fsize"], {}, salt=e["salt"]), {}
+    return core.SparseFile(e["fsize"], {0: bytes.fromhex(e["head"])[:e["fsize"]]} if e.get("head") else {}, salt=e["salt"]), {}
 
 
 def spec_range(total_sectors, kind, a, b):
